@@ -300,15 +300,21 @@ impl Family for Isolation {
                 for k in 0..n_lib {
                     let pkg = if place == "lib" && stray.contains(&k) { "Zed" } else { "A" };
                     files.push((format!("A/a{}.gom", k), format!("package {}\n\nfn f{}() -> int32 {{ {} }}\n", pkg, k, k + 1)));
-                    terms.push(format!("A::f{}()", k));
-                    sum += k + 1;
+                    // nothing refers to what a stray file declares: only its package clause is wrong
+                    if pkg == "A" {
+                        terms.push(format!("A::f{}()", k));
+                        sum += k + 1;
+                    }
                 }
                 for k in 1..n_root {
                     let pkg = if place == "root" && stray.contains(&k) { "Zed" } else { "Main" };
                     files.push((format!("s{}.gom", k), format!("package {}\n\nfn m{}() -> int32 {{ {} }}\n", pkg, k, 10 * k)));
-                    terms.push(format!("m{}()", k));
-                    sum += 10 * k;
+                    if pkg == "Main" {
+                        terms.push(format!("m{}()", k));
+                        sum += 10 * k;
+                    }
                 }
+                terms.push("0".to_string());
                 files.insert(0, ("main.gom".to_string(), format!("package Main\nimport A\n\nfn main() {{\n    string_println(int32_to_string({}))\n}}\n", terms.join(" + "))));
                 expect_accept = stray.is_empty();
                 if stray.is_empty() {
